@@ -193,8 +193,13 @@ class StreamModel(Model):
             v.src = src
             return v
         if name == "sorted" or name == "set":
-            # only used for logging in the code under contract
             args = [eng.eval(st, a) for a in node.args]
+            if args and isinstance(args[0], VU):
+                f = z3.Function("PY_" + name, U, U)
+                r = VU(f(args[0].t))
+                r.maybe_unhashable = getattr(args[0], "maybe_unhashable",
+                                             False)
+                return r
             return VU(st.fresh(name, U))
         return NotImplemented
 
